@@ -1,11 +1,15 @@
+//go:debug randautoseed=0
+//go:debug randseednop=0
 package harness
 
 import (
 	"encoding/json"
 	"errors"
 	"fmt"
+	"math/rand"
 	"os"
 	"path/filepath"
+	"runtime"
 	"sort"
 	"strings"
 	"sync"
@@ -524,6 +528,10 @@ var profiles = map[string]profile{
 }
 
 func runWalk(t *testing.T, rep *Report, prof profile, seed uint64, walk int, actions int) {
+	// one P and a fixed seed of the library's math/rand source (go:debug randautoseed=0, reseeded per
+	// walk below): together with the canonical order of parked calls a walk replays the same way
+	defer runtime.GOMAXPROCS(runtime.GOMAXPROCS(1))
+	rand.Seed(int64(seed*1000003 + uint64(walk)))
 	rng := NewRng(seed*1000003 + uint64(walk))
 	nn := prof.nodes
 	if nn == 0 {
@@ -653,13 +661,11 @@ func runWalk(t *testing.T, rep *Report, prof profile, seed uint64, walk int, act
 				}
 			case pick(prof.pDup):
 				// duplicated request: the handler sees an old request again, nobody reads the answer
-				s.Net.mu.Lock()
-				all := s.Net.All
-				s.Net.mu.Unlock()
+				all := s.AllCalls()
 				if len(all) > 0 {
 					c := all[rng.Intn(len(all))]
 					if c.Delivered && !s.IsCut(c.From, c.To) && s.Nodes[c.To] != nil {
-						d := &Call{ID: -c.ID, From: c.From, To: c.To, Kind: c.Kind, AE: c.AE, RV: c.RV, IS: c.IS, done: make(chan error, 1)}
+						d := &Call{ID: -c.ID, Seq: -c.num(), From: c.From, To: c.To, Kind: c.Kind, AE: c.AE, RV: c.RV, IS: c.IS, done: make(chan error, 1)}
 						w.note("duplicate delivery of %s", c)
 						s.Deliver(d)
 					}
@@ -702,7 +708,8 @@ func runWalk(t *testing.T, rep *Report, prof profile, seed uint64, walk int, act
 				}
 			case pick(prof.pCrash):
 				if len(w.crashed) > 0 && rng.Chance(60) {
-					for id, img := range w.crashed {
+					for _, id := range sortedKeys(w.crashed) {
+						img := w.crashed[id]
 						w.incs[id]++
 						w.note("restart node %d", id)
 						if err := w.restart(id, img); err != nil {
@@ -787,11 +794,12 @@ func runWalk(t *testing.T, rep *Report, prof profile, seed uint64, walk int, act
 		// ---- quiet period: heal, restart, deliver promptly; the cluster must converge (C15)
 		w.note("--- quiet period ---")
 		s.HealAll()
-		for id := range w.armed {
+		for _, id := range sortedKeys(w.armed) {
 			s.Disarm(id)
 		}
 		w.collectTrips()
-		for id, img := range w.crashed {
+		for _, id := range sortedKeys(w.crashed) {
+			img := w.crashed[id]
 			w.incs[id]++
 			if err := w.restart(id, img); err != nil {
 				w.violate("C14", "creating and starting a node over the directory of a crashed node failed", fmt.Sprintf("node %d: %v", id, err), map[string]string{"oracle": "restart-total"})
@@ -808,6 +816,9 @@ func runWalk(t *testing.T, rep *Report, prof profile, seed uint64, walk int, act
 		if !badRestore() {
 			w.observe()
 			w.checkSnapshots()
+		}
+		if f := os.Getenv("VERIF_DUMP_TRACE"); f != "" {
+			os.WriteFile(f, []byte(strings.Join(w.Trace, "\n")+"\n"), 0o644)
 		}
 		rep.Case(w.walkID, len(w.Ops) > 0)
 		rep.Evaluations += len(w.Trace) // scheduler actions executed and checked by the oracles
@@ -1158,4 +1169,13 @@ func TestE4Walks(t *testing.T) {
 		rep.Write()
 	}
 	os.Remove(os.Getenv("VERIF_OUT") + ".current")
+}
+
+func sortedKeys[V any](m map[uint64]V) []uint64 {
+	ks := make([]uint64, 0, len(m))
+	for k := range m {
+		ks = append(ks, k)
+	}
+	sort.Slice(ks, func(i, j int) bool { return ks[i] < ks[j] })
+	return ks
 }
